@@ -19,7 +19,7 @@ RULE = ("modules mixing documented and undocumented commands of all ten include_
 ASSUMPTIONS = ["nothing is asserted about undocumented entries of kinds that stay on (e.g. an implementing definition that "
                "becomes an ordinary function when its declaration is hidden)",
                "names are unique per module, so entries are matched by name and doc marker"]
-BUDGET = {"quick": {"shards": 4, "examples": 200}, "thorough": {"shards": 16, "examples": 3000}}
+BUDGET = {"quick": {"shards": 8, "examples": 150}, "thorough": {"shards": 16, "examples": 3000}}
 
 KINDS = M.FLAG_KINDS
 ITEM_KIND = {"option": "option", "class": "cpp_class", "attr": "cpp_attr", "test": "ct_add_test",
